@@ -19,6 +19,7 @@ import CelloProofs.Lemmas.FmtCalls
 import CelloProofs.Lemmas.FmtShow
 import CelloProofs.Lemmas.FmtBuiltin
 import CelloProofs.Lemmas.FmtReject
+import CelloProofs.Lemmas.FmtAlias
 
 namespace Cello.Fmt
 
@@ -96,21 +97,26 @@ theorem C14_checked_format (prim : Prim) (shw : Obj → Out → Out × Outcome)
 
 /-- **The calls in closed form.** On a well-formed format whose specifications each find an argument of their class
     (`expectCalls … = some cs`: Int for d i u o x X c, Float for f F e E g G a A, String for s, anything for p and $),
-    with a `show` that makes the calls `showCalls a` and does not raise, and libc accepting all of them (`AllAcc`),
+    with a `show` that on the ARGUMENTS makes the calls `showCalls a` and does not raise, and libc accepting all of them (`AllAcc`),
     `print_to_with` makes exactly the calls `cs`:
     the literal runs verbatim, `%%`, for the k-th specification the fragment `%` body conv with the C value of the k-th
     argument, for `%$` the calls of the k-th argument's own show — in order; it completes, and the position returned is
-    the start position plus the length of the text libc wrote for these calls. -/
+    the start position plus the length of the text libc wrote for these calls.
+    The last conjunct is what entitles the reader to instantiate `prim` with a real C library: when the specifications belong to the
+    printf grammar of the property (`printfOK`: flags, width, precision, length modifier — no `*`, no `L`) and the calls of `show` are
+    inside libc's contract, EVERY call handed to libc is (`Call.inContract`: one vararg, of the class the conversion reads).  Outside
+    `printfOK` the position / text conjunct is a statement about the model only (`C14_star_width_refuted`). -/
 theorem C14_calls (prim : Prim) (shw : Obj → Out → Out × Outcome) (showCalls : Obj → List Call)
-    (hs : ∀ a o, shw a o = (emitAll prim o (showCalls a), .ok))
     (segs : List Seg) (hwf : wfSegs cfgNow.conv segs = true) (args : List Obj) (cs : List Call)
+    (hs : ∀ a ∈ args, ∀ o, shw a o = (emitAll prim o (showCalls a), .ok))
     (hcs : expectCalls showCalls args segs 0 = some cs) (hacc : AllAcc prim cs) (o : Out) :
     let r := printToWith cfgNow prim shw (render segs) args o
-    r.pair = (emitAll prim o cs, .ok) ∧ r.out.calls = o.calls ++ cs ∧ r.out.pos = o.pos + (textOf prim cs).length := by
+    r.pair = (emitAll prim o cs, .ok) ∧ r.out.calls = o.calls ++ cs ∧ r.out.pos = o.pos + (textOf prim cs).length ∧
+    (segs.all Seg.printfOK = true → (∀ a ∈ args, ∀ c ∈ showCalls a, c.inContract = true) → ∀ c ∈ cs, c.inContract = true) := by
   have h := C14_segmentation prim shw segs hwf args o
-  rw [refRun_typed prim shw C14_dispatch_table showCalls hs args segs 0 cs o hcs hacc] at h
+  rw [refRun_typed prim shw C14_dispatch_table showCalls args hs segs 0 cs o hcs hacc] at h
   have h1 : (printToWith cfgNow prim shw (render segs) args o).out = emitAll prim o cs := congrArg Prod.fst h
-  refine ⟨h, ?_, ?_⟩
+  refine ⟨h, ?_, ?_, fun hpf hsh => expectCalls_inContract cfgNow showCalls args hsh segs 0 cs hwf hpf hcs⟩
   · simp only [h1, emitAll_calls]
   · simp only [h1, emitAll_pos]
 
@@ -128,17 +134,19 @@ theorem C14_printf_grammar (b : Str) (c : Char) (h : specOK b c = true) : (Seg.s
 /-! ## T1: bounds -/
 
 /-- **C14_bounds.** On a well-formed format every index read in the format array is ≤ its length (the terminator is
-    the last byte read), every index written in `fmt_buf` is ≤ the length (the buffer has length+1 bytes), and — with
-    `String_Format_To` as it is now, also when libc rejects a call — the run never takes the out-of-bounds outcome,
-    PROVIDED no argument is the destination itself (`isSink`: see `C14_alias_refuted`) and no argument's `show` reports one. -/
+    the last byte read), every index written in `fmt_buf` is ≤ the length (the buffer has length+1 bytes) — on ALL of `wfSegs`, whatever
+    libc does; and — with `String_Format_To` as it is now, also when libc rejects a call — the run never takes the out-of-bounds outcome,
+    PROVIDED the specifications belong to the printf grammar (`printfOK`: outside it, e.g. `%*d`, libc itself reads varargs that were
+    never passed — `C14_star_width_refuted`), no argument is the destination itself (`isSink`: see `C14_alias_refuted`) and no
+    argument's `show` reports one. -/
 theorem C14_bounds (libc : Libc) (shw : Obj → Out → Out × Outcome)
     (segs : List Seg) (hwf : wfSegs cfgNow.conv segs = true) (args : List Obj) (o : Out) :
     let r := printToWith cfgNow (primNow libc) shw (render segs) args o
     r.marks.rdMax ≤ (render segs).length ∧ r.marks.wrMax ≤ (render segs).length ∧
-      ((∀ a ∈ args, a.isSink = false ∧ ∀ o, (shw a o).2 ≠ .oob) → r.oc ≠ .oob) := by
+      (segs.all Seg.printfOK = true → (∀ a ∈ args, a.isSink = false ∧ ∀ o, (shw a o).2 ≠ .oob) → r.oc ≠ .oob) := by
   obtain ⟨mk', h, h1, h2⟩ := printToWith_refines cfgNow (primNow libc) shw args C14_scan_set.1 segs hwf o
   simp only [h]
-  exact ⟨h1, h2, fun hs => refRun_not_oob cfgNow (primNow libc) shw (primNow_guarded libc) args hs segs 0 o⟩
+  exact ⟨h1, h2, fun _ hs => refRun_not_oob cfgNow (primNow libc) shw (primNow_guarded libc) args hs segs 0 o⟩
 
 /-- every format the built-in Show instances and `show_to` pass to `print_to` (read from the source) is well-formed -/
 theorem C14_show_formats_wf : ∀ f ∈ showNow.formats, (parseFmt cfgNow.conv f).isSome = true := by
@@ -160,61 +168,101 @@ theorem C14_show_facts : ShowFacts cfgNow showNow where
   dflt := ⟨"<'".toList, "' At 0x".toList, ">".toList, by decide⟩
   typeNow := C14_type_show_returns_position
 
+/-- the dispatch of the source reaches `show_to` through `$` only and `c_str` through `s` only (what makes `plainFor` the exact
+    territory of KF-C14-alias) -/
+theorem C14_dispatch_facts : DispatchFacts cfgNow := by
+  unfold DispatchFacts
+  decide
+
 /-- **C14_bounds with the built-in Show instances**: Int, Float, String, Array, Tuple, List, Table, Tree, Range, Slice, Box,
     NULL, objects without a Show instance, Type objects (nested to any depth, any recursion fuel) never make `print_to_with`
-    leave its buffers or run into undefined behaviour — provided no argument (and nothing its `show` reaches) is the
-    destination itself (`plainArgs`, decidable; the excluded region: `C14_alias_refuted`). -/
+    leave its buffers or run into undefined behaviour on a format of the printf grammar — provided no `%s` specification fetches the
+    destination itself and no `%$` specification fetches an object whose show reaches it (`plainFor`, decidable, relative to the format:
+    exactly KF-C14-alias; the excluded region: `C14_alias_refuted`).  The destination under `%p`, under an integer / floating conversion and
+    as a surplus argument IS covered (`C14_alias_harmless`). -/
 theorem C14_bounds_builtin (libc : Libc) (d : Nat)
-    (segs : List Seg) (hwf : wfSegs cfgNow.conv segs = true) (args : List Obj) (hpl : plainArgs d args = true) (o : Out) :
+    (segs : List Seg) (hwf : wfSegs cfgNow.conv segs = true) (hpf : segs.all Seg.printfOK = true)
+    (args : List Obj) (hpl : plainFor d args segs 0 = true) (o : Out) :
     let r := printTo cfgNow (primNow libc) showNow d (render segs) args o
     r.marks.rdMax ≤ (render segs).length ∧ r.marks.wrMax ≤ (render segs).length ∧ r.oc ≠ .oob := by
-  have h := C14_bounds libc (showD cfgNow (primNow libc) showNow d) segs hwf args o
-  refine ⟨h.1, h.2.1, h.2.2 (fun a ha => ?_)⟩
-  have hp : plainD d a = true := List.all_eq_true.1 hpl a ha
-  exact ⟨plainD_not_sink d a hp, showD_not_oob cfgNow (primNow libc) showNow (primNow_guarded libc) C14_show_facts d a hp⟩
+  have _ := hpf
+  obtain ⟨mk', h, h1, h2⟩ := printToWith_refines cfgNow (primNow libc) (showD cfgNow (primNow libc) showNow d) args C14_scan_set.1 segs hwf o
+  simp only [printTo, h]
+  exact ⟨h1, h2, refRun_not_oob_used cfgNow (primNow libc) _ (primNow_guarded libc) args segs 0 o
+    (useOk_of_plainFor cfgNow (primNow libc) showNow (primNow_guarded libc) C14_show_facts C14_dispatch_facts d args segs 0 hwf hpl).1⟩
+
+/-- the OLD hypothesis implies the new one: arguments that neither are nor reach the destination are fine for every format -/
+theorem C14_plainArgs_plainFor (d : Nat) (args : List Obj) (h : plainArgs d args = true) (segs : List Seg) :
+    plainFor d args segs 0 = true :=
+  plainFor_of_plainArgs d args h segs 0
 
 /-! ## T1: position and sinks -/
 
-/-- **C14_position.** For EVERY format (well-formed or not), argument list and libc there is one sequence of primitive
+/-- **Same calls on every sink, every format.**  For EVERY format (well-formed or not, inside the printf grammar or not), argument
+    list and libc there is one sequence of primitive calls `cs` and one outcome such that, whatever the destination and the start
+    position, the calls made are `cs` and the outcome is that one: a String and a File receive the same `format_to` calls with the same
+    C values.  (No claim about libc's TEXT: that needs the printf grammar, `C14_position`.)  `show` may be any function that is pure on the
+    arguments; no argument may be the destination itself. -/
+theorem C14_same_calls (libc : Libc) (shw : Obj → Out → Out × Outcome)
+    (fmt : Str) (args : List Obj) (hs : ∀ a ∈ args, a.isSink = false ∧ Pure (primNow libc) (shw a)) :
+    ∃ (cs : List Call) (oc : Outcome), ∀ (sink : Sink) (start : Nat),
+      let r := printToWith cfgNow (primNow libc) shw fmt args ⟨sink, start, []⟩
+      r.out.calls = cs ∧ r.oc = oc := by
+  obtain ⟨cs, oc, h⟩ := position_of_pure (primNow libc) (primNow_guarded libc) _
+    (printToWith_pure (primNow libc) cfgNow shw (primNow_guarded libc) fmt args hs)
+  exact ⟨cs, oc, fun sink start => ⟨(h sink start).1, (h sink start).2.1⟩⟩
+
+/-- **C14_position.** For every format of the printf grammar (`wfSegs` + `printfOK`: the class on which the trusted `libc` is a function
+    of the fragment and the ONE value passed), argument list and libc there is one sequence of primitive
     calls `cs` and one outcome such that, whatever the destination and the start position: the calls made are `cs` (so a
     String and a File receive the same calls), the returned position is start + the number of characters libc wrote for
     them (a rejected call writes none), a File receives exactly that text at its offset, and a String written from
     `start ≤ length` holds `take start old ++ text` — it is untouched if libc accepted no call (none was made, or the
-    first one was rejected: `if (size < 0) { return size; }`).  `show` may be any function that is pure on the arguments;
-    no argument may be the destination itself. -/
+    first one was rejected: `if (size < 0) { return size; }`).  "Holds" is a statement about the bytes of the String's block `[0, position)`:
+    a `%c` with a value ≡ 0 (mod 256) writes a NUL byte, behind which `c_str` does not see the rest.  `start > length`:
+    `C14_start_beyond_end_refuted`.  `show` may be any function that is pure on the arguments it is used on, and no `%s` may fetch the
+    destination itself (`UseOk … KindPure`: relative to the format). -/
 theorem C14_position (libc : Libc) (shw : Obj → Out → Out × Outcome)
-    (fmt : Str) (args : List Obj) (hs : ∀ a ∈ args, a.isSink = false ∧ Pure (primNow libc) (shw a)) :
+    (segs : List Seg) (hwf : wfSegs cfgNow.conv segs = true) (hpf : segs.all Seg.printfOK = true)
+    (args : List Obj) (hs : UseOk cfgNow (KindPure (primNow libc) shw) args segs 0) :
     ∃ (cs : List Call) (oc : Outcome), ∀ (sink : Sink) (start : Nat),
       let prim := primNow libc
-      let r := printToWith cfgNow prim shw fmt args ⟨sink, start, []⟩
+      let r := printToWith cfgNow prim shw (render segs) args ⟨sink, start, []⟩
       r.out.calls = cs ∧ r.oc = oc ∧ r.out.pos = start + (textOf prim cs).length ∧
       (∀ c, sink = .file c → r.out.sink = .file (c ++ textOf prim cs)) ∧
       (∀ v, sink = .str v → start ≤ v.length →
         r.out.sink = if accepted prim cs = [] then .str v else .str (v.take start ++ textOf prim cs)) := by
-  have hg := primNow_guarded libc
-  obtain ⟨cs, oc, h⟩ := printToWith_pure (primNow libc) cfgNow shw hg fmt args hs
-  refine ⟨cs, oc, fun sink start => ?_⟩
-  have hr := h ⟨sink, start, []⟩
-  simp only [Result.pair, Prod.mk.injEq] at hr
-  obtain ⟨h1, h2⟩ := hr
-  simp only [h1, h2]
-  refine ⟨by simp [emitAll_calls], trivial, by simp [emitAll_pos], fun c hc => ?_, fun v hv hle => ?_⟩
-  · exact emitAll_file (primNow libc) cs _ c hc
-  · exact emitAll_str_guarded (primNow libc) hg cs ⟨sink, start, []⟩ v hv hle
+  have _ := hpf
+  have hp : Pure (primNow libc) (fun o => (printToWith cfgNow (primNow libc) shw (render segs) args o).pair) := by
+    have e : (fun o => (printToWith cfgNow (primNow libc) shw (render segs) args o).pair) = refRun cfgNow (primNow libc) shw args segs 0 :=
+      funext (C14_segmentation (primNow libc) shw segs hwf args)
+    rw [e]
+    exact refRun_pure_used cfgNow (primNow libc) shw (primNow_guarded libc) args segs 0 hs
+  exact position_of_pure (primNow libc) (primNow_guarded libc) _ hp
 
 /-- **C14_position for the built-in types**: the same with `show` = the model of Int_Show / Float_Show / String_Show /
     Array_Show / Tuple_Show / List_Show / Table_Show / Tree_Show / Range_Show / Slice_Show / Box_Show / Type_Show / `show_to`
-    (any recursion fuel), for arguments that neither are nor reach the destination itself (`plainArgs`; the excluded region:
-    `C14_alias_refuted`).  Type objects are covered since fix 0046a69 (before it: `C14_type_show_old_refuted`). -/
-theorem C14_position_builtin (libc : Libc) (d : Nat) (fmt : Str) (args : List Obj) (hpl : plainArgs d args = true) :
+    (any recursion fuel), when no `%s` fetches the destination itself and no `%$` an object whose show reaches it (`plainFor`: exactly
+    KF-C14-alias; the excluded region: `C14_alias_refuted`).  Type objects are covered since fix 0046a69 (before it: `C14_type_show_old_refuted`). -/
+theorem C14_position_builtin (libc : Libc) (d : Nat)
+    (segs : List Seg) (hwf : wfSegs cfgNow.conv segs = true) (hpf : segs.all Seg.printfOK = true)
+    (args : List Obj) (hpl : plainFor d args segs 0 = true) :
     ∃ (cs : List Call) (oc : Outcome), ∀ (sink : Sink) (start : Nat),
       let prim := primNow libc
-      let r := printTo cfgNow prim showNow d fmt args ⟨sink, start, []⟩
+      let r := printTo cfgNow prim showNow d (render segs) args ⟨sink, start, []⟩
       r.out.calls = cs ∧ r.oc = oc ∧ r.out.pos = start + (textOf prim cs).length ∧
       (∀ c, sink = .file c → r.out.sink = .file (c ++ textOf prim cs)) ∧
       (∀ v, sink = .str v → start ≤ v.length →
         r.out.sink = if accepted prim cs = [] then .str v else .str (v.take start ++ textOf prim cs)) :=
-  C14_position libc (showD cfgNow (primNow libc) showNow d) fmt args (fun a ha => by
+  C14_position libc (showD cfgNow (primNow libc) showNow d) segs hwf hpf args
+    (useOk_of_plainFor cfgNow (primNow libc) showNow (primNow_guarded libc) C14_show_facts C14_dispatch_facts d args segs 0 hwf hpl).2
+
+/-- **Same calls on every sink, every format, built-in Show instances** (arguments that neither are nor reach the destination). -/
+theorem C14_same_calls_builtin (libc : Libc) (d : Nat) (fmt : Str) (args : List Obj) (hpl : plainArgs d args = true) :
+    ∃ (cs : List Call) (oc : Outcome), ∀ (sink : Sink) (start : Nat),
+      let r := printTo cfgNow (primNow libc) showNow d fmt args ⟨sink, start, []⟩
+      r.out.calls = cs ∧ r.oc = oc :=
+  C14_same_calls libc (showD cfgNow (primNow libc) showNow d) fmt args (fun a ha => by
     have hp : plainD d a = true := List.all_eq_true.1 hpl a ha
     exact ⟨plainD_not_sink d a hp, showD_pure cfgNow (primNow libc) showNow (primNow_guarded libc) C14_show_facts d a hp⟩)
 
@@ -277,9 +325,9 @@ theorem C14_too_few_all_ok (prim : Prim) (shw : Obj → Out → Out × Outcome)
     untouched — NOT cut at the start position, not freed); the position is where the prefix ended; the rejected call is
     the last one in the log and `post` is never looked at.  (The prefix IS written: known finding KF-C14-partial-write.) -/
 theorem C14_reject_unchanged (libc : Libc) (shw : Obj → Out → Out × Outcome) (showCalls : Obj → List Call)
-    (hs : ∀ a o, shw a o = (emitAll (primNow libc) o (showCalls a), .ok))
     (pre : List Seg) (b : Str) (c : Char) (post : List Seg)
     (hwf : wfSegs cfgNow.conv (pre ++ .spec b c :: post) = true) (args : List Obj) (cs : List Call)
+    (hs : ∀ a ∈ args, ∀ o, shw a o = (emitAll (primNow libc) o (showCalls a), .ok))
     (hcs : expectCalls showCalls args pre 0 = some cs) (hacc : AllAcc (primNow libc) cs)
     (a : Obj) (ha : args[nspecs pre]? = some a) (v : PVal) (hv : specVal c a = some v)
     (hrej : libc.rej ('%' :: (b ++ [c])) v = true) (o : Out) :
@@ -319,6 +367,55 @@ theorem C14_reject_old_refuted :
     now0.oc = .raised .FormatError ∧ now0.out.sink = .str hello ∧
     now3.out.calls = [⟨fmt, .i64 256⟩] := by
   decide
+
+/-! ## the closed forms with the built-in Show instances -/
+
+/-- **The calls in closed form, built-in Show instances.**  `C14_calls` with `show` = the model of the Show instances of the source
+    (`showD`, fuel `d`): for arguments that neither are nor reach the destination (`plainArgs`) and whose own show completes
+    (`showsOk`: decidable — run it once; fuel above the nesting depth, libc accepting its calls), `showCalls` is `builtinCalls`, the list
+    of calls that show makes.  (Closes the gap that `C14_calls` could not be instantiated with the show the driver runs.) -/
+theorem C14_calls_builtin (libc : Libc) (d : Nat)
+    (segs : List Seg) (hwf : wfSegs cfgNow.conv segs = true) (args : List Obj) (cs : List Call)
+    (hpl : plainArgs d args = true) (hok : showsOk cfgNow (primNow libc) showNow d args = true)
+    (hcs : expectCalls (builtinCalls cfgNow (primNow libc) showNow d) args segs 0 = some cs) (hacc : AllAcc (primNow libc) cs) (o : Out) :
+    let prim := primNow libc
+    let r := printTo cfgNow prim showNow d (render segs) args o
+    r.pair = (emitAll prim o cs, .ok) ∧ r.out.calls = o.calls ++ cs ∧ r.out.pos = o.pos + (textOf prim cs).length := by
+  have h := C14_calls (primNow libc) (showD cfgNow (primNow libc) showNow d) (builtinCalls cfgNow (primNow libc) showNow d) segs hwf args cs
+    (showD_closed_args cfgNow (primNow libc) showNow (primNow_guarded libc) C14_show_facts d args hpl hok) hcs hacc o
+  exact ⟨h.1, h.2.1, h.2.2.1⟩
+
+/-- **C14_too_few with the built-in Show instances**: for arguments that neither are nor reach the destination and whose own show
+    completes (`showsOk`), on a well-formed `Typed` format `print_to_with` completes exactly when there are enough arguments and libc
+    rejects none of the format's own calls; otherwise it raises FormatError. -/
+theorem C14_too_few_builtin (libc : Libc) (d : Nat)
+    (segs : List Seg) (hwf : wfSegs cfgNow.conv segs = true) (args : List Obj) (o : Out)
+    (hpl : plainArgs d args = true) (hok : showsOk cfgNow (primNow libc) showNow d args = true) (ht : Typed args segs 0) :
+    let r := printTo cfgNow (primNow libc) showNow d (render segs) args o
+    (r.oc = .ok ↔ nspecs segs ≤ args.length ∧ NoReject (primNow libc) args segs 0) ∧
+    (r.oc = .raised .FormatError ↔ args.length < nspecs segs ∨ ¬ NoReject (primNow libc) args segs 0) :=
+  C14_too_few libc (showD cfgNow (primNow libc) showNow d) segs hwf args o
+    (fun a ha o => by
+      rw [showD_closed_args cfgNow (primNow libc) showNow (primNow_guarded libc) C14_show_facts d args hpl hok a ha o]) ht
+
+/-- **C14_reject_unchanged with the built-in Show instances** (same hypotheses on the arguments as `C14_calls_builtin`). -/
+theorem C14_reject_unchanged_builtin (libc : Libc) (d : Nat)
+    (pre : List Seg) (b : Str) (c : Char) (post : List Seg)
+    (hwf : wfSegs cfgNow.conv (pre ++ .spec b c :: post) = true) (args : List Obj) (cs : List Call)
+    (hpl : plainArgs d args = true) (hok : showsOk cfgNow (primNow libc) showNow d args = true)
+    (hcs : expectCalls (builtinCalls cfgNow (primNow libc) showNow d) args pre 0 = some cs) (hacc : AllAcc (primNow libc) cs)
+    (a : Obj) (ha : args[nspecs pre]? = some a) (v : PVal) (hv : specVal c a = some v)
+    (hrej : libc.rej ('%' :: (b ++ [c])) v = true) (o : Out) :
+    let prim := primNow libc
+    let r := printTo cfgNow prim showNow d (render (pre ++ .spec b c :: post)) args o
+    r.oc = .raised .FormatError ∧
+    r.out.sink = (emitAll prim o cs).sink ∧ r.out.pos = o.pos + (textOf prim cs).length ∧
+    r.out.calls = o.calls ++ cs ++ [⟨'%' :: (b ++ [c]), v⟩] ∧
+    (∀ s, o.sink = .str s → o.pos ≤ s.length →
+      r.out.sink = if cs = [] then .str s else .str (s.take o.pos ++ textOf prim cs)) ∧
+    (∀ f, o.sink = .file f → r.out.sink = .file (f ++ textOf prim cs)) :=
+  C14_reject_unchanged libc (showD cfgNow (primNow libc) showNow d) (builtinCalls cfgNow (primNow libc) showNow d) pre b c post hwf args cs
+    (showD_closed_args cfgNow (primNow libc) showNow (primNow_guarded libc) C14_show_facts d args hpl hok) hcs hacc a ha v hv hrej o
 
 /-! ## %$ and the built-in Show instances -/
 
@@ -371,7 +468,7 @@ theorem C14_show_formats_more :
     parseFmt cfgNow.conv showNow.trePair = some [.spec [] '$', .lit ":".toList, .spec [] '$'] ∧
     isLitFmt showNow.treSep = true ∧ isLitFmt showNow.treClose = true ∧
     parseFmt cfgNow.conv showNow.rngOpen = some [.lit "<'Range' At 0x".toList, .spec [] 'p', .lit " [".toList] ∧
-    parseFmt cfgNow.conv showNow.rngItem = some [.spec [] 'i'] ∧
+    parseFmt cfgNow.conv showNow.rngItem = some [.spec ['l'] 'i'] ∧
     isLitFmt showNow.rngSep = true ∧ isLitFmt showNow.rngClose = true ∧
     parseFmt cfgNow.conv showNow.slcOpen = some [.lit "<'Slice' At 0x".toList, .spec [] 'p', .lit " [".toList] ∧
     isLitFmt showNow.slcSep = true ∧ isLitFmt showNow.slcClose = true ∧
@@ -386,7 +483,8 @@ theorem C14_show_formats_more :
     * a Table / a Tree: the opening with the object's address, then for each pair in iteration order (slot order / key
       order — the order `Obj.table` / `Obj.tree` carry) the key's own show, `:`, the value's own show, `, ` between two
       pairs (not after the last), then `}>`;
-    * a Range: the opening, one `%i` call per value the iteration yields, `, ` between two, `]>`;
+    * a Range: the opening, one `%li` call per value the iteration yields (the format of `Int_Show`: fix 78c2117, see
+      `C14_range_shows_own_int_show`), `, ` between two, `]>`;
     * a Slice: the opening, each item's own show, `, ` between two, `]>`;
     * a Box: `<'Box' at 0x` address ` (` the show of what it holds `)>`;
     * NULL: the literal `<NULL>`;
@@ -406,7 +504,7 @@ theorem C14_show_more (prim : Prim) (d : Nat) (ps : List (Obj × Obj)) (ns : Lis
         (andThen (showPairsSpec prim elem ":".toList showNow.treSep ps) (lit showNow.treClose)) o ∧
     showD cfgNow prim showNow (d + 1) (.range ns) o =
       andThen (addrCalls prim "<'Range' At 0x".toList " [".toList)
-        (andThen (showIntsSpec prim ['%', 'i'] showNow.rngSep ns) (lit showNow.rngClose)) o ∧
+        (andThen (showIntsSpec prim ['%', 'l', 'i'] showNow.rngSep ns) (lit showNow.rngClose)) o ∧
     showD cfgNow prim showNow (d + 1) (.slice items) o =
       andThen (addrCalls prim "<'Slice' At 0x".toList " [".toList)
         (andThen (showItemsSpec prim elem showNow.slcSep items) (lit showNow.slcClose)) o ∧
@@ -427,8 +525,8 @@ theorem C14_show_more (prim : Prim) (d : Nat) (ps : List (Obj × Obj)) (ns : Lis
   refine ⟨showD_table cfgNow prim showNow hp hf hfp _ _ _ t1 t2 t3 t4 d ps o,
     showD_tree cfgNow prim showNow hp hf hfp _ _ _ r1 r2 r3 r4 d ps o, ?_,
     showD_slice cfgNow prim showNow hp hd hf hfp _ _ s1 s2 s3 d items o, ?_, ?_, ?_, ?_⟩
-  · have := showD_range cfgNow prim showNow hp hfp [] 'i' hfi _ _ g1 g2 g3 g4 d ns o
-    have hi : showNow.rngItem = ['%', 'i'] := by decide
+  · have := showD_range cfgNow prim showNow hp hfp ['l'] 'i' hfi _ _ g1 g2 g3 g4 d ns o
+    have hi : showNow.rngItem = ['%', 'l', 'i'] := by decide
     rw [hi] at this
     exact this
   · simp only [showD]
@@ -439,6 +537,44 @@ theorem C14_show_more (prim : Prim) (d : Nat) (ps : List (Obj × Obj)) (ns : Lis
     exact print_default cfgNow prim _ hp hfs hfp _ _ _ _ d1 t (.other t) o
   · simp only [showD, C14_type_show_returns_position, Bool.false_eq_true, if_false]
     exact print_type cfgNow prim _ hp hfs _ (by decide) t o
+
+/-- **A Range shows its elements' own show text (fix 78c2117).**  The item format of `Range_Show` read from the source IS the format of
+    `Int_Show` (`"%li"`), and therefore `%$` on a Range writes, between the opening and the closing text, exactly what `show` writes for
+    each Int the iteration yields — each once, in order, `, ` between two (`showItemsSpec` over the values as Int objects, the same
+    specification as for Array / List / Slice).  Breaks when the item format is turned back to `"%i"` (`C14_range_show_old_refuted`). -/
+theorem C14_range_shows_own_int_show (prim : Prim) (d : Nat) (ns : List Int) (o : Out) :
+    showNow.rngItem = showNow.intFmt ∧
+    showD cfgNow prim showNow (d + 2) (.range ns) o =
+      andThen (addrCalls prim "<'Range' At 0x".toList " [".toList)
+        (andThen (showItemsSpec prim (fun x o => showD cfgNow prim showNow (d + 1) x o) showNow.rngSep (ns.map Obj.int))
+          (fun o => o.call prim showNow.rngClose .none)) o := by
+  have hp := C14_scan_set.1
+  have hfi : firing cfgNow 'i' = [.cint] := C14_dispatch_table.1 'i' (by decide)
+  have hitem : showNow.rngItem = showNow.intFmt := by decide
+  have hint : parseFmt cfgNow.conv showNow.intFmt = some [.spec ['l'] 'i'] := by decide
+  refine ⟨hitem, ?_⟩
+  rw [(C14_show_more prim (d + 1) [] ns [] .null [] o).2.2.1]
+  have hli : (['%', 'l', 'i'] : Str) = showNow.intFmt := by decide
+  have e : showIntsSpec prim ['%', 'l', 'i'] showNow.rngSep ns =
+      showItemsSpec prim (fun x o => showD cfgNow prim showNow (d + 1) x o) showNow.rngSep (ns.map Obj.int) := by
+    funext o
+    rw [hli]
+    exact showIntsSpec_eq_items prim _ _ _ (fun n o => showD_int cfgNow prim showNow hp ['l'] 'i' hfi hint d n o) ns o
+  rw [e]
+
+/-- **The OLD `Range_Show` (before 78c2117) on the same witness** (corpus/fmt_fixed_range_show.ops: `%$` on
+    `range($I(2147483647), $I(2147483649))`): the OLD item format `"%i"` makes libc read an `int` — the second value, 2^31, comes out as
+    the negative number its low 32 bits spell, while `show` of that Int (and the Range now) writes it in full.  `libcWidth` = a test
+    libc whose integer text depends on the width the conversion reads. -/
+theorem C14_range_show_old_refuted :
+    let r := Obj.range [2147483647, 2147483648]
+    let old := printTo cfgNow primWidth showOldRange 4 ['%', '$'] [r] ⟨.file [], 0, []⟩
+    let now := printTo cfgNow primWidth showNow 4 ['%', '$'] [r] ⟨.file [], 0, []⟩
+    let own := printTo cfgNow primWidth showNow 4 ['%', '$'] [.int 2147483648] ⟨.file [], 0, []⟩
+    old.out.sink = .file "<'Range' At 0xp [n, -n]>".toList ∧ now.out.sink = .file "<'Range' At 0xp [n, n]>".toList ∧
+    own.out.sink = .file "n".toList ∧ old.out.calls.map (·.frag) ≠ now.out.calls.map (·.frag) ∧
+    showOldRange.rngItem ≠ showOldRange.intFmt := by
+  decide
 
 /-! ## known finding F29, malformed tails, non-vacuity -/
 
@@ -463,6 +599,75 @@ theorem C14_alias_refuted :
     plainArgs 4 [.sink] = false ∧ plainArgs 4 [.tuple [.int 1, .sink]] = false ∧
     (printTo cfgNow primTest showNow 4 ['%', 's'] [.sink] ⟨.file ['a', 'b'], 2, []⟩).oc = .raised .ClassError ∧
     (printTo cfgNow primTest showNow 4 ['%', '$'] [.sink] ⟨.file [], 0, []⟩).out.sink = .file "<'File' At 0xp>".toList := by
+  decide
+
+/-- **The destination as its own argument where the code is right** (the region `plainArgs` excluded and `plainFor` does not): on a String
+    holding "ab", `print_to(s, 2, "%p|", s)` prints the address, `print_to(s, 0, "%d", $I(7), s)` never fetches the surplus `s`,
+    `print_to(s, 0, "x%d", s)` raises ClassError after `x` (a String has no C_Int) — no undefined behaviour, `plainFor` holds, `plainArgs`
+    does not; `%s` / `%$` on the same arguments is KF-C14-alias and `plainFor` is false (corpus/fmt_alias_safe.ops, corpus/kf_c14_alias.ops). -/
+theorem C14_alias_harmless :
+    let o2 : Out := ⟨.str ['a', 'b'], 2, []⟩
+    let o0 : Out := ⟨.str ['a', 'b'], 0, []⟩
+    let r1 := printTo cfgNow primTest showNow 4 ['%', 'p', '|'] [.sink] o2
+    let r2 := printTo cfgNow primTest showNow 4 ['%', 'd'] [.int 7, .sink] o0
+    let r3 := printTo cfgNow primTest showNow 4 ['x', '%', 'd'] [.sink] o0
+    r1.oc = .ok ∧ r1.out.sink = .str ['a', 'b', 'p', '|'] ∧ r1.out.pos = 4 ∧
+    r2.oc = .ok ∧ r2.out.sink = .str ['n'] ∧ r2.out.pos = 1 ∧
+    r3.oc = .raised .ClassError ∧ r3.out.sink = .str ['x'] ∧
+    plainFor 4 [.sink] [.spec [] 'p', .lit ['|']] 0 = true ∧ plainArgs 4 [.sink] = false ∧
+    plainFor 4 [.int 7, .sink] [.spec [] 'd'] 0 = true ∧ plainFor 4 [.sink] [.lit ['x'], .spec [] 'd'] 0 = true ∧
+    plainFor 4 [.sink] [.spec [] 's'] 0 = false ∧ plainFor 4 [.tuple [.int 1, .sink]] [.spec [] '$'] 0 = false ∧
+    plainFor 4 [.int 1, .tuple [.sink]] [.spec [] '$', .spec [] 'p'] 0 = true := by
+  decide
+
+/-- **`*` width / precision, `L`, `%ls` (known finding KF-C14-star-width).**  The property says "flags, width, precision"; `*` IS a
+    standard printf width.  `print_to(s, 0, "[%*d]", $I(5), $I(42))`: the format is well-formed for the scanner (`wfSegs`: `*` is no
+    conversion character) but outside `printfOK`; `print_to_with` makes ONE call for the specification, with ONE vararg — the 5 —, and
+    fetches ONE Cello argument: the 42 is never used (the run is the same with 43 in its place, or with no second argument at all).  libc,
+    however, reads TWO varargs for `%*d`: the width from the 5 that was passed and the value from whatever the next register holds —
+    so the text is not `printf("[%*d]", 5, 42)` = `[   42]` and not a function of the arguments at all.  The call is outside libc's
+    contract (`Call.inContract`), which is why the text / no-undefined-behaviour conjuncts of `C14_bounds`, `C14_position`, `C14_calls`
+    carry `printfOK`.  Witness: corpus/kf_c14_star_width.ops. -/
+theorem C14_star_width_refuted :
+    let segs := [Seg.lit ['['], .spec ['*'] 'd', .lit [']']]
+    let run := fun (args : List Obj) => printTo cfgNow primTest showNow 4 (render segs) args ⟨.str [], 0, []⟩
+    wfSegs cfgNow.conv segs = true ∧ segs.all Seg.printfOK = false ∧ inGrammar cfgNow.conv (render segs) = false ∧
+    (run [.int 5, .int 42]).oc = .ok ∧
+    (run [.int 5, .int 42]).out.calls = [⟨['['], .none⟩, ⟨['%', '*', 'd'], .i64 5⟩, ⟨[']'], .none⟩] ∧
+    run [.int 5, .int 42] = run [.int 5, .int 43] ∧ run [.int 5, .int 42] = run [.int 5] ∧
+    (Call.mk ['%', '*', 'd'] (.i64 5)).inContract = false ∧
+    (Call.mk ['%', '.', '*', 'f'] (.dbl 0)).inContract = false ∧ (Call.mk ['%', 'L', 'f'] (.dbl 0)).inContract = false ∧
+    (Call.mk ['%', 'l', 's'] (.cstr [])).inContract = false ∧
+    (Call.mk ['%', '-', '0', '8', '.', '3', 'l', 'l', 'd'] (.i64 5)).inContract = true := by
+  decide
+
+/-- **A start position beyond the end of a String (known finding KF-C14-start-beyond-end).**  The quantifier says "all start positions";
+    every String conclusion above carries `start ≤ length`, and it must: `print_to(s, 5, "xyz")` on a String holding "ab" returns 8 =
+    5 + 3 (the position conjunct holds), but `realloc` keeps `ab\0` and the text lands at index 5, behind the old terminator and two
+    indeterminate bytes — the C string the sink holds is still "ab", not `take 5 "ab" ++ "xyz"`, and its length (2) is not the position
+    returned.  (A File ignores the position altogether: `File_Format_To` writes at the current offset.)  Witness:
+    corpus/kf_c14_start_beyond_end.ops. -/
+theorem C14_start_beyond_end_refuted :
+    let r := printTo cfgNow primTest showNow 4 ['x', 'y', 'z'] [] ⟨.str ['a', 'b'], 5, []⟩
+    r.oc = .ok ∧ r.out.pos = 8 ∧ textOf primTest r.out.calls = ['x', 'y', 'z'] ∧
+    cValueAfter ['a', 'b'] 5 ['x', 'y', 'z'] = ['a', 'b'] ∧
+    cValueAfter ['a', 'b'] 5 ['x', 'y', 'z'] ≠ (['a', 'b'] : Str).take 5 ++ ['x', 'y', 'z'] ∧
+    (cValueAfter ['a', 'b'] 5 ['x', 'y', 'z']).length ≠ r.out.pos ∧
+    cValueAfter ['a', 'b'] 2 ['x', 'y', 'z'] = ['a', 'b', 'x', 'y', 'z'] := by
+  decide
+
+/-- **`fmt_buf` on the throw paths (known finding KF-C14-fmtbuf-leak).**  `print_to_with` allocates `fmt_buf` first and frees it only before
+    `return pos;` (`C14_source_as_modelled`: the one `free` of the function text); every way out through an exception — too few arguments,
+    a call libc rejects, ClassError / ValueError from `c_int` / `c_str`, an invalid format — skips it: `strlen(fmt)+1` bytes stay allocated
+    per failing call, nothing on the normal path.  Not a read or write outside the buffers; recorded because every occurrence of
+    KF-C14-partial-write leaks.  Witness: corpus/kf_c14_fmtbuf_leak.ops. -/
+theorem C14_fmt_buf_released_refuted :
+    let fmt := ['a', 'b', 'c', ' ', '%', 'd']
+    let few := printTo cfgNow primTest showNow 4 fmt [] ⟨.str [], 0, []⟩
+    let cls := printTo cfgNow primTest showNow 4 fmt [.str ['x']] ⟨.str [], 0, []⟩
+    let fine := printTo cfgNow primTest showNow 4 fmt [.int 1] ⟨.str [], 0, []⟩
+    few.oc = .raised .FormatError ∧ few.leaked fmt = 7 ∧ cls.oc = .raised .ClassError ∧ cls.leaked fmt = 7 ∧
+    fine.oc = .ok ∧ fine.leaked fmt = 0 := by
   decide
 
 /-- **Type objects at any position (was known finding KF-C14-type-show, fixed by 0046a69).**  `%$` on a Type object advances
@@ -542,6 +747,20 @@ example :
     r.out.calls.getLast? = some ⟨['%', 'l', 'c'], .i64 8364⟩ ∧ r.out.calls.length = 4 := by
   refine ⟨by decide, ?_, by decide, by decide, by decide, by decide, by decide, by decide, by decide, by decide, by decide, by decide⟩
   refine ⟨?_, ?_, ?_, trivial⟩ <;> (intro a ha; simp at ha; subst ha; right; decide)
+
+/-- Non-vacuity of `showsOk` / `builtinCalls` (`C14_calls_builtin`, `C14_too_few_builtin`, `C14_reject_unchanged_builtin`): nested containers
+    are plain, their show completes with fuel 6, and its call list is what `expectCalls` splices in for `%$`. -/
+example :
+    let a := Obj.tuple [.int 1, .array [.str ['a']], .box (.range [0, 5])]
+    let args := [a, Obj.int 7]
+    let segs := [Seg.spec [] '$', .lit ['='], .spec ['0', '3'] 'd']
+    plainArgs 6 args = true ∧ showsOk cfgNow primTest showNow 6 args = true ∧ showsOk cfgNow primTest showNow 2 args = false ∧
+    (builtinCalls cfgNow primTest showNow 6 (.int 7)) = [⟨['%', 'l', 'i'], .i64 7⟩] ∧
+    (expectCalls (builtinCalls cfgNow primTest showNow 6) args segs 0).isSome = true ∧ Typed args segs 0 ∧
+    segs.all Seg.printfOK = true ∧ plainFor 6 args segs 0 = true ∧
+    (builtinCalls cfgNow primTest showNow 6 a).all Call.inContract = true := by
+  refine ⟨by decide, by decide, by decide, by decide, by decide, ?_, by decide, by decide, by decide⟩
+  refine ⟨?_, ?_, trivial⟩ <;> (intro a ha; simp at ha; subst ha; first | (left; rfl) | (right; decide))
 
 /-- Non-vacuity of `plainArgs`: nested containers of every modelled kind are plain, Type objects included; the show text of a
     Table inside a Box inside a Tuple, a Type object in the middle of a Tuple (the position goes on after it). -/
